@@ -50,7 +50,7 @@ def check(run, project):
     if o2e is None:
         raise AnalysisError("C11: obj_to_events not found")
     # ---- A1 / A2 / A3 (path summaries of obj_to_events)
-    got, prefix = a123(run, mod, o2e)
+    got, prefix = a123(run, mod, o2e, L)
     skip = skippable_fields(roles, L)
     run.ob("A1", got == skip, f"invisible-when-None fields = fields the framing can skip ({sorted(skip)})",
            f"obj_to_events hides {sorted(got)} but the decoder can omit {sorted(skip)}: " +
@@ -128,7 +128,7 @@ def label(p):
     return " & ".join(("" if v else "not ") + a for a, v, _ in p.cond) or "always"
 
 
-def a123(run, mod, fn):
+def a123(run, mod, fn, L):
     """obj_to_events, decided on the summaries of its paths. Returns (invisible names, union name prefix)."""
     import re
     S = paths.Summariser(mod, fn)
@@ -192,13 +192,19 @@ def a123(run, mod, fn):
                 if m:
                     U = a_
                     prefixes.add(m.group(1))
-                m = re.fullmatch(re.escape(f_) + r"\.name in (\(.*\))", a_)
+                m = re.fullmatch(re.escape(f_) + r"\.name in (.+)", a_)
                 if m:
                     I = a_
                     try:
                         names |= set(ast.literal_eval(m.group(1)))
                     except Exception:
-                        raise AnalysisError(f"C11: invisible-field tuple of obj_to_events is not literal: {a_}")
+                        # not a literal: a table of names built from the layout classes - evaluated like the layout tables are
+                        from ..specmodel import TupleV
+                        L.m.load(mod.name)
+                        v = L.m.eval(ast.parse(m.group(1), mode="eval").body, L.m.env(mod.name), mod)
+                        if not (isinstance(v, TupleV) and all(isinstance(x, str) for x in v.items)):
+                            raise AnalysisError(f"C11: invisible-field set of obj_to_events cannot be evaluated: {a_}")
+                        names |= set(v.items)
         if U is None or I is None:
             raise AnalysisError("C11: invisible-field tuple / union-name test of obj_to_events not found")
         FP = f"{P} / PathNode({f_}.name)"
